@@ -157,7 +157,7 @@ func c13Run(j *rt.Job, seed uint64, r *rt.Rec) {
 			}
 		}
 		n := hi - lo
-		r.Eval(n)
+		r.Eval(n * 256)      // one evaluation = one coefficient (value at a position) round-tripped
 		r.DistinctN(n * 256) // (value, position) pairs, all distinct by construction
 		r.Count("latin_polynomials_"+p.name, n)
 		r.Observe("exhaustive", fmt.Sprintf("%s: values [%d,%d) of %d at every position", p.name, lo, hi, span))
